@@ -195,6 +195,14 @@ class Worker:
         addition/enqueueing. This is necessary to ensure that the idle status is
         always correct.
         """
+        self._mailbox_mutex = Lock()
+        """
+        A lock to make depositing a result and waking its waiting task atomic
+        with respect to a task registering itself as waiting on a mailbox.
+
+        Without it, a result handled by the incoming thread while the main
+        thread is inside `_process_await` wakes the task twice.
+        """
         # Send out every client emitted log message upstream
         old_factory = logging.getLogRecordFactory()
 
@@ -325,18 +333,20 @@ class Worker:
             return
 
         box = self._mailboxes[mailbox_id]
-        box.deposit_result(result)
 
-        if box.has_task_waiting:
-            assert box.dest_addr is not None
-            task = self._tasks[box.dest_addr]
+        with self._mailbox_mutex:
+            box.deposit_result(result)
 
-            if task.wake_on_next or box.ready:
-                # print(f'Worker {self._id} is waking task
-                # {task.return_address}, with {task.wake_on_next=},
-                # {box.ready=}')
-                self._ready_task_ids.put(box.dest_addr)  # Wake it
-                box.dest_addr = None  # Prevent double wake
+            if box.has_task_waiting:
+                assert box.dest_addr is not None
+                task = self._tasks[box.dest_addr]
+
+                if task.wake_on_next or box.ready:
+                    # print(f'Worker {self._id} is waking task
+                    # {task.return_address}, with {task.wake_on_next=},
+                    # {box.ready=}')
+                    self._ready_task_ids.put(box.dest_addr)  # Wake it
+                    box.dest_addr = None  # Prevent double wake
 
     def _handle_cancel(self, addr: RuntimeAddress) -> None:
         """
@@ -478,6 +488,8 @@ class Worker:
 
         box = self._mailboxes[future.mailbox_id]
 
+        self._mailbox_mutex.acquire()
+
         # Let the mailbox know this task is waiting
         box.dest_addr = task.return_address
         task.desired_box_id = future.mailbox_id
@@ -494,6 +506,9 @@ class Worker:
 
         if box.ready:
             self._ready_task_ids.put(task.return_address)
+            box.dest_addr = None  # Prevent double wake
+
+        self._mailbox_mutex.release()
 
     def _process_task_completion(self, task: RuntimeTask, result: Any) -> None:
         """Package and send out task result."""
